@@ -541,6 +541,8 @@ func (e *Engine) boolTerm(v value) string {
 
 // Assert checks cond on the current path.  kf/inRegion implement DESIGN 4.2.
 func (e *Engine) Assert(c value, label, kf string, inRegion value) {
+	e.z.record = true
+	defer func() { e.z.record = false }()
 	e.Asserts++
 	e.AssertLabels[label]++
 	if b, ok := c.(bool); ok && b {
